@@ -59,13 +59,14 @@ func lower(s string) string             { return s }
 func imin[T ~int | ~int64 | ~uint64 | ~uint32 | ~int32](a, b T) T { if a < b { return a }; return b }
 func imax[T ~int | ~int64 | ~uint64 | ~uint32 | ~int32](a, b T) T { if a > b { return a }; return b }
 func ite[T any](c bool, a, b T) T       { if c { return a }; return b }
-func fresh(p any) bool                  { return p != nil }
+func fresh[T any](p T) bool             { return true }
 func sameslice[T any](a, b []T) bool    { return len(a) == len(b) }
 func sliceeq[T comparable](a, b []T) bool { return len(a) == len(b) }
 func str(b []byte) string               { return string(b) }
 func typeis[T any](v any) bool          { _, ok := v.(T); return ok }
 func psum[T any](f func(T) Z, s []T, n int) Z { return 0 }
 func isstatus(e error) bool             { return e != nil }
+func lastrand() int64                   { return 0 }
 func statuscode(e error) uint32         { return 0 }
 `
 
